@@ -949,8 +949,9 @@ async fn check_range(cx: &mut Ctx, db: &Db, q: &Query, model: &Model, at: usize)
             }
         }
     }
-    // (3) storage level, INT keys at storage column 0 only (the storage API's contract)
-    if def.cols[pk].ty == Ty::Int && pk == 0 {
+    // (3) storage level, INT keys at storage column 0 only, on a store that records first keys
+    // (the storage API's contract for a range scan)
+    if def.cols[pk].ty == Ty::Int && pk == 0 && cx.case.knobs().record_first_key {
         let mut lo: Option<(bool, i32)> = None;
         let mut hi: Option<(bool, i32)> = None;
         for a in &q.pred.0 {
